@@ -27,7 +27,7 @@ PROPS = {
         'design_ref': 'DESIGN.md section 5 C19',
     },
     'C20': {
-        'modules': FS_MODULES + ['contracts.pack_swap'],
+        'modules': FS_MODULES + ['contracts.pack_swap', 'contracts.demostorage'],
         'lemmas': ['contracts.lemmas:lemma_c20_fresh'],
         'level': 'proof',
         'bounded': [
@@ -46,7 +46,7 @@ PROPS = {
         'design_ref': 'DESIGN.md section 5 C20',
     },
     'C04': {
-        'modules': FS_MODULES,
+        'modules': FS_MODULES + ['contracts.demostorage', 'contracts.mappingstorage', 'contracts.fs_iter'],
         'thorough_env': {'PYVC_INDEX_PROOF': '1'},
         'lemmas': ['contracts.fs_load:lemma_extremal', 'contracts.lemmas:lemma_header_roundtrip'],
         'level': 'proof',
@@ -186,7 +186,7 @@ PROPS['C16'] = {
 }
 
 PROPS['C02'] = {
-    'modules': FS_MODULES + ['contracts.mvcc'],
+    'modules': FS_MODULES + ['contracts.mvcc', 'contracts.mappingstorage'],
     'lemmas': ['contracts.mvcc:lemma_frames', 'contracts.mvcc:lemma_snapshot'],
     'level': 'proof',
     'bounded': [
@@ -210,7 +210,7 @@ PROPS['C02'] = {
     'design_ref': 'DESIGN.md section 5 C02',
 }
 PROPS['C15'] = {
-    'modules': ['contracts.fs_format', 'contracts.mvcc'],
+    'modules': ['contracts.fs_format', 'contracts.demostorage', 'contracts.mvcc', 'contracts.mappingstorage'],
     'lemmas': ['contracts.mvcc:lemma_frames', 'contracts.mvcc:lemma_snapshot'],
     'level': 'proof',
     'bounded': [
@@ -255,7 +255,7 @@ PROPS['C09'] = {
 
 PROPS['C13'] = {
     'modules': ['contracts.fs_format', 'contracts.fs_load', 'contracts.blobmodel', 'contracts.fs_write',
-                'contracts.blobspecs', 'contracts.mvcc'],
+                'contracts.blobspecs', 'contracts.mvcc', 'contracts.copytxn'],
     'lemmas': [],
     'level': 'proof',
     'bounded': [
@@ -278,7 +278,8 @@ PROPS['C13'] = {
 }
 
 PROPS['C17'] = {
-    'modules': ['contracts.fs_format', 'contracts.recover'],
+    'modules': ['contracts.fs_format', 'contracts.fs_load', 'contracts.blobmodel', 'contracts.fs_write',
+                'contracts.recover', 'contracts.fs_iter', 'contracts.copytxn'],
     'lemmas': [],
     'level': 'proof',
     'bounded': [
@@ -399,7 +400,7 @@ PROPS['C06'] = {
     'design_ref': 'DESIGN.md section 5 C06',
 }
 
-PACK_MODULES = ['contracts.fs_format', 'contracts.fs_load', 'contracts.blobmodel', 'contracts.serialize_refs',
+PACK_MODULES = ['contracts.fs_format', 'contracts.fs_load', 'contracts.blobmodel', 'contracts.fs_write', 'contracts.serialize_refs',
                 'contracts.conflict', 'contracts.pack_gc', 'contracts.pack_swap', 'contracts.pack_copy']
 
 PROPS['C07'] = {
